@@ -59,6 +59,21 @@ def gen_workload(seed, wi):
                                    {"type": "extra", "allele": base, "depth": rng.choice([0.45, 0.5, 0.55])}]
         smp["thin"] = []
         params = {"gap": rng.choice([0.5, 1.0, 1.0, 2.0]), "max_minor_solutions": 1}
+    if wi % 4 == 1:
+        # a common tandem (A+B) in the catalogue and a sample with one A and two B copies: the diplotype
+        # heuristic pairs A with one B and has to keep the other B
+        fams = {}
+        for a in g["alleles"]:
+            if a["kind"] == "normal":
+                fams.setdefault(a["name"].split(".")[0], []).append(a["name"])
+        if len(fams) >= 2:
+            fb = max(sorted(fams), key=lambda k: len(fams[k]))
+            fa = rng.choice([k for k in sorted(fams) if k != fb])
+            g["tandems"] = [[fa, fb]]
+            smp["genes"][g["name"]] = [{"type": "normal", "allele": fams[fa][0]},
+                                       {"type": "normal", "allele": fams[fb][0]},
+                                       {"type": "extra", "allele": fams[fb][-1]}]
+            smp["thin"] = []
     return {"world": world, "samples": {"s0": smp}, "params": params, "build": "hg19",
             "out": rng.choice(["aldy", "vcf", "simple", "simple", "none"]),
             "hashseed": rng.choice([0, 1, 2, 3]),
